@@ -1609,7 +1609,7 @@ func (g *cg) frameShape() cgFrameShape {
 		})
 	}
 	// ---------------- recv ----------------
-	if fd, ok := g.funcs["recv"]; ok {
+	if fd, ok := g.recvFunc(); ok {
 		ren := map[string]string{}
 		var msizeP string
 		for _, f := range fd.Type.Params.List {
@@ -1628,6 +1628,18 @@ func (g *cg) frameShape() cgFrameShape {
 					l, r := g.text(x.Lhs[0]), g.text(x.Rhs[0])
 					if strings.HasPrefix(r, "buffer{data:") && strings.HasSuffix(r, "[:]}") {
 						hdrBuf = l
+					}
+					// recvFrame: the limit is a `func() uint32` parameter asked once, after the header
+					if c, ok := x.Rhs[0].(*ast.CallExpr); ok && len(c.Args) == 0 && msizeP == "" {
+						if id, ok := c.Fun.(*ast.Ident); ok {
+							for _, f := range fd.Type.Params.List {
+								if ft, isFn := f.Type.(*ast.FuncType); isFn && len(f.Names) == 1 && f.Names[0].Name == id.Name &&
+									(ft.Params == nil || len(ft.Params.List) == 0) && ft.Results != nil && len(ft.Results.List) == 1 && g.text(ft.Results.List[0].Type) == "uint32" {
+									msizeP = l
+									ren[l] = "MSIZE"
+								}
+							}
+						}
 					}
 				}
 				if len(x.Lhs) == 2 && len(x.Rhs) == 1 {
@@ -1775,7 +1787,7 @@ func (g *cg) frameShape() cgFrameShape {
 // A value is a view of the pooled buffer ("len", "cap", "first") or "new" (make([]byte, size)); anything else is "?".
 func (g *cg) recvSlices() (cmp, dec, rd string) {
 	cmp, dec, rd = "?", "?", "?"
-	fd, ok := g.funcs["recv"]
+	fd, ok := g.recvFunc()
 	if !ok {
 		return
 	}
@@ -2056,7 +2068,7 @@ func cgRecvName(fd *ast.FuncDecl) string {
 
 // factRecvBufferExact looks into recv's appendBuffer closure.
 func (g *cg) factRecvBufferExact() bool {
-	fd, ok := g.funcs["recv"]
+	fd, ok := g.recvFunc()
 	if !ok {
 		return false
 	}
@@ -2196,4 +2208,14 @@ func (g *cg) factCleanupZeroes() bool {
 		return true
 	})
 	return nmake == 2 && len(sizes) == 1
+}
+
+// recvFunc returns the function holding the receive path: recvFrame (recv's body since the size limit
+// is asked for after the header has arrived; recv is then a one-line wrapper) or, on older trees, recv.
+func (g *cg) recvFunc() (*ast.FuncDecl, bool) {
+	if fd, ok := g.funcs["recvFrame"]; ok {
+		return fd, true
+	}
+	fd, ok := g.funcs["recv"]
+	return fd, ok
 }
